@@ -31,6 +31,22 @@
 (* returned is multiplied by the denominator named next to the field,      *)
 (* rounded, and the rounding residual is tested (<= 1e-9 relative); a      *)
 (* value that is not on the lattice is reported in field "off".            *)
+(*                                                                         *)
+(* Unit of length and origin.  A record may say that the implementation    *)
+(* was handed the surface (S + org) * sc (org an integer vector, sc a      *)
+(* positive rational; fields "org", "sc").  The harness then reads every   *)
+(* result back in the lattice unit and about the lattice origin (lengths   *)
+(* / sc - org, areas / sc^2, volumes / sc^3, second moments / sc^5; frame  *)
+(* origins and centre overrides are handed over as (t + org) * sc), so     *)
+(* the record is judged exactly like the one for S itself.  The two laws   *)
+(* this relies on (translation covariance, homogeneity of degree 3 / 4 /   *)
+(* 5) are checked on the reference in RefLaws.                             *)
+(*                                                                         *)
+(* Frames.  A frame is (R / rd, t / td) with integer R, t: rotations with  *)
+(* rational entries (rd = 3, 5 from integer quaternions) and origins on    *)
+(* the half / quarter lattice.  FrameJ120Q evaluates the definition on     *)
+(* the surface in q = rd * td times the frame coordinates, which is a      *)
+(* lattice surface again; second moments are homogeneous of degree 5.      *)
 (***************************************************************************)
 EXTENDS Integers, Sequences, FiniteSets, TLC, Json
 
@@ -57,6 +73,8 @@ MMul(A, B) == LET r(k) == <<Dot(A[k], Col(B, 1)), Dot(A[k], Col(B, 2)), Dot(A[k]
 MVec(A, v) == <<Dot(A[1], v), Dot(A[2], v), Dot(A[3], v)>>
 DetM(A) == Det3(A[1], A[2], A[3])
 IsRotation(R) == MMul(R, Transpose(R)) = IdM /\ DetM(R) = 1
+\* R / rd is a rotation
+IsRotationQ(R, rd) == rd >= 1 /\ MMul(R, Transpose(R)) = MScale(rd * rd, IdM) /\ DetM(R) = rd * rd * rd
 
 \* parallel-axis matrix  M(a) = |a|^2 E - a a^T
 PAx(a) == <<<<a[2] * a[2] + a[3] * a[3], -(a[1] * a[2]), -(a[1] * a[3])>>,
@@ -101,6 +119,15 @@ Translate(S, t) == MapPoints(S, LAMBDA p : Add(p, t))
 ToFrame(S, R, t) == LET Rt == Transpose(R) IN MapPoints(S, LAMBDA p : MVec(Rt, Sub(p, t)))
 \* 120 * (inertia tensor of the solid expressed in the frame (R, t)), by definition
 FrameJ120(S, R, t) == J120(I120(ToFrame(S, R, t)))
+\* frame (R / rd, t / td): the surface in (rd * td) x frame coordinates,  p'' = R^T (td p - t)
+ToFrameQ(S, R, t, td) == LET Rt == Transpose(R) IN MapPoints(S, LAMBDA p : MVec(Rt, Sub(Scale(td, p), t)))
+FrameJ120Q(S, R, t, td) == J120(I120(ToFrameQ(S, R, t, td)))      \* = (rd td)^5 * 120 * frame inertia
+\* the solid moved by the rotation R (about the origin), and the solid in another unit of length
+RotateBody(S, R) == MapPoints(S, LAMBDA p : MVec(R, p))
+ScaleBody(S, k) == MapPoints(S, LAMBDA p : Scale(k, p))
+Homog10(G, k) == <<k * k * k * G[1], k * k * k * k * G[2], k * k * k * k * G[3], k * k * k * k * G[4],
+                   k * k * k * k * k * G[5], k * k * k * k * k * G[6], k * k * k * k * k * G[7],
+                   k * k * k * k * k * G[8], k * k * k * k * k * G[9], k * k * k * k * k * G[10]>>
 
 FaceCross(f) == Cross(Sub(f[2], f[1]), Sub(f[3], f[1]))
 Cross2(f) == LET n == FaceCross(f) IN Dot(n, n)         \* (2 * area)^2
@@ -143,6 +170,10 @@ IsPillowKind(S) == /\ Len(S) \in {2, 6} /\ IsPillow(SubSeq(S, 1, 2))
 \*   area_total                2 area = sum of the roots (only when every root is an integer)
 \*   frame_inertia_integral    inertia in frame (R, t) = second-moment integrals in frame coordinates
 \*   frame_inertia_reported_law  (under an override) = R^T (I + m M(t - c)) R of the reported I, m, c
+\*   inertia_true_override  the override given IS the centre of mass: the tensor must be the central one
+\*   rotated_body_inertia      inertia.transform_inertia(R, I): central tensor of the solid moved by R (= R I R^T)
+\*   rotated_frame_at_center   inertia.transform_inertia(R, I, parallel_axis, mass) with a 3x3 R: central tensor
+\*                             in the axes of frame R (= R^T I R)
 \*   offlattice_<field>        the reported float is not within 1e-9 of any point of the lattice of exact values
 \* record c: tri (the triangles handed to the implementation), density dn/dd,
 \*   ovr / oc2 (centre override given, 2 * override), obs (one per API), see checks/c03.py
@@ -152,31 +183,47 @@ IsPillowKind(S) == /\ Len(S) \in {2, 6} /\ IsPillow(SubSeq(S, 1, 2))
 \*   crs2[k] = (2 area_k)^2, area2 = 2 * area (hasarea: the API reports a total; area2ok: it is an integer),  frames[k] = [R, t, I = 240 dd * frame inertia]
 AllSquares(S) == \A k \in 1..Len(S) : Cross2(S[k]) \in Squares
 
+\* the override given is the true centre of mass:  oc2 / 2 = N / (4 D)
+OvrTrue(c, G) == c.ovr /\ D6(G) # 0 /\ Scale(2 * D6(G), c.oc2) = N24(G)
+
+\* frame fr = [R, rd, t, td, I]: rotation R / rd, origin t / td,
+\*   I = 240 dd rd^2 td^2 * (reported frame inertia)   so that   I * q^3 = 2 dn FrameJ120Q,  q = rd td
 FrameClause(c, o, G, fr) ==
-    LET D == D6(G) IN
+    LET D == D6(G)  q == fr.rd * fr.td
+        integral == IF MScale(q * q * q, fr.I) # MScale(2 * c.dn, FrameJ120Q(c.tri, fr.R, fr.t, fr.td))
+                    THEN "frame_inertia_integral" ELSE "ok" IN
     IF c.ovr THEN
-        \* law applied to the reported values: R^T (I + m M(t - c)) R
-        IF o.ilat /\ fr.I # MMul(Transpose(fr.R), MMul(MAdd(o.I, MScale(10 * o.mass6, PAx(Sub(Scale(2, fr.t), c.oc2)))), fr.R))
-        THEN "frame_inertia_reported_law" ELSE "ok"
-    ELSE IF D # 0 \/ G = Zero10 THEN
-        IF fr.I # MScale(2 * c.dn, FrameJ120(c.tri, fr.R, fr.t))
-        THEN "frame_inertia_integral" ELSE "ok"
+        \* law applied to the reported values: R^T (I + m M(t - c)) R   (lattice frames only)
+        IF q = 1 /\ o.ilat /\ fr.I # MMul(Transpose(fr.R), MMul(MAdd(o.I, MScale(10 * o.mass6, PAx(Sub(Scale(2, fr.t), c.oc2)))), fr.R))
+        THEN "frame_inertia_reported_law"
+        ELSE IF OvrTrue(c, G) THEN integral ELSE "ok"
+    ELSE IF D # 0 \/ G = Zero10 THEN integral
+    ELSE "ok"
+
+\* direct calls of inertia.transform_inertia on the reported central tensor; x = [R, A, P], A and P in the
+\* unit of o.I (480 vol6 dd); only recorded without an override and with non-zero volume
+XfClause(c, x) ==
+    IF x.A # MScale(c.dn, Central480D(I120(RotateBody(c.tri, x.R)))) THEN "rotated_body_inertia"
+    ELSE IF x.P # MScale(c.dn, Central480D(I120(ToFrame(c.tri, x.R, Zero3)))) THEN "rotated_frame_at_center"
     ELSE "ok"
 
 ObsClause(c, o, G) ==
     LET S == c.tri  D == D6(G)  N == N24(G)
-        badframes == {k \in 1..Len(o.frames) : FrameClause(c, o, G, o.frames[k]) # "ok"} IN
+        badframes == {k \in 1..Len(o.frames) : FrameClause(c, o, G, o.frames[k]) # "ok"}
+        badxf == {k \in 1..Len(o.xf) : XfClause(c, o.xf[k]) # "ok"} IN
     IF o.off # "" THEN "offlattice_" \o o.off
     ELSE IF o.vol6 # D THEN "volume"
     ELSE IF o.dens # c.dn THEN "density_reported"
     ELSE IF o.mass6 # c.dn * D THEN "mass_density_x_volume"
     ELSE IF c.ovr /\ o.cm # c.oc2 THEN "center_mass_override"
+    ELSE IF OvrTrue(c, G) /\ (~o.ilat \/ MScale(2 * D, o.I) # MScale(c.dn, Central480D(G))) THEN "inertia_true_override"
     ELSE IF ~c.ovr /\ D # 0 /\ o.cm # N THEN "center_mass"
     ELSE IF ~c.ovr /\ D # 0 /\ o.I # MScale(c.dn, Central480D(G)) THEN "inertia_at_center_mass"
     ELSE IF ~c.ovr /\ G = Zero10 /\ o.I # ZeroM THEN "inertia_empty_solid"
     ELSE IF Len(o.crs2) # Len(S) \/ \E k \in 1..Len(S) : o.crs2[k] # Cross2(S[k]) THEN "face_areas"
     ELSE IF o.hasarea /\ AllSquares(S) /\ (~o.area2ok \/ o.area2 # SumRoots(S, Len(S))) THEN "area_total"
     ELSE IF badframes # {} THEN FrameClause(c, o, G, o.frames[CHOOSE k \in badframes : \A m \in badframes : k <= m])
+    ELSE IF badxf # {} THEN XfClause(c, o.xf[CHOOSE k \in badxf : \A m \in badxf : k <= m])
     ELSE "ok"
 
 Clause(c) ==
@@ -193,11 +240,16 @@ Report == LET c == Cases[i]  cl == IF c.exc # "" THEN "raised_" \o c.exc ELSE Cl
 \* ------------------------------------------------------------ the inputs satisfy the hypothesis
 InputSane ==
     LET c == Cases[i]  S == c.tri IN
-    /\ Len(S) >= 1 /\ c.dd \in {1, 2, 4} /\ c.dn >= 0
+    /\ Len(S) >= 1 /\ c.dd \in {1, 2, 4, 1024} /\ c.dn >= 0
+    /\ c.sc[1] >= 1 /\ c.sc[2] >= 1 /\ Len(c.org) = 3
     /\ CASE c.kind = "tet" -> IsTetKind(S)
          [] c.kind = "pillow" -> IsPillowKind(S)
+         [] c.kind = "ovrtrue" -> Closed(S) /\ OvrTrue(c, I120(S))     \* built so that the override is the true centre
          [] OTHER -> Closed(S)
-    /\ \A k \in 1..Len(c.obs) : \A m \in 1..Len(c.obs[k].frames) : IsRotation(c.obs[k].frames[m].R)
+    /\ \A k \in 1..Len(c.obs) :
+          /\ \A m \in 1..Len(c.obs[k].frames) :
+                LET fr == c.obs[k].frames[m] IN IsRotationQ(fr.R, fr.rd) /\ fr.td >= 1
+          /\ \A m \in 1..Len(c.obs[k].xf) : IsRotation(c.obs[k].xf[m].R)
 
 \* ------------------------------------------------------------ laws of the reference itself
 \* evaluated on the recorded inputs flagged c.laws (all of them in the small families)
@@ -238,10 +290,20 @@ RefLaws ==
       \* signed tetrahedra from the origin = the tetrahedron's own closed form; a pillow encloses nothing
       /\ c.kind = "tet" => G = IF Len(S) = 4 THEN TetAt(S, 1) ELSE Add10(TetAt(S, 1), TetAt(S, 5))
       /\ c.kind = "pillow" => G = IF Len(S) = 2 THEN Zero10 ELSE TetAt(S, 3)
-      \* parallel-axis and rotation law against the definition of the frame inertia:
-      \*   4 D J_frame = R^T (4 D J - 5 M(N) + 5 M(4 D t - N)) R
+      \* homogeneity (change of the unit of length) and rotation of the body keep the volume
+      /\ I120(ScaleBody(S, 2)) = Homog10(G, 2)
+      /\ \A k \in 1..Len(c.obs) : \A m \in 1..Len(c.obs[k].xf) :
+            LET R == c.obs[k].xf[m].R  GR == I120(RotateBody(S, R)) IN
+            /\ GR[1] = G[1] /\ N24(GR) = MVec(R, N)
+            /\ Central480D(GR) = MMul(R, MMul(Central480D(G), Transpose(R)))
+            /\ Central480D(I120(ToFrame(S, R, Zero3))) = MMul(Transpose(R), MMul(Central480D(G), R))
+      \* parallel-axis and rotation law against the definition of the frame inertia, frame (R / rd, t / td):
+      \*   4 D J_frame = R^T (4 D J - 5 M(N) + 5 M(4 D t - N)) R, i.e. with q = rd td
+      \*   4 D FrameJ120Q = q^3 R^T (td^2 (4 D J - 5 M(N)) + 5 M(4 D t - td N)) R
       /\ \A k \in 1..Len(c.obs) : \A m \in 1..Len(c.obs[k].frames) :
-            LET fr == c.obs[k].frames[m] IN
-            MScale(4 * D, FrameJ120(S, fr.R, fr.t))
-              = MMul(Transpose(fr.R), MMul(MAdd(Central480D(G), MScale(5, PAx(Sub(Scale(4 * D, fr.t), N)))), fr.R))
+            LET fr == c.obs[k].frames[m]  q == fr.rd * fr.td IN
+            MScale(4 * D, FrameJ120Q(S, fr.R, fr.t, fr.td))
+              = MScale(q * q * q, MMul(Transpose(fr.R),
+                    MMul(MAdd(MScale(fr.td * fr.td, Central480D(G)),
+                              MScale(5, PAx(Sub(Scale(4 * D, fr.t), Scale(fr.td, N))))), fr.R)))
 =============================================================================
